@@ -129,26 +129,38 @@ Definition valid_cfg (c : cfg) : Prop :=
   ofm_block c mod ofm_ublock c = 0 /\ ifm_block_depth c mod ifm_ublock c = 0 /\
   (is_dw c = true -> ifm_depth c = 1 /\ is_pk c = false).
 
-(* the documented nesting as a sort key of a source position: outermost first
-   [ofm block; ifm block; sub-kernel y; sub-kernel x; ifm ublock (part-kernel only); ofm ublock;
-    element in sub-kernel; ifm ublock (depth-first only); ofm channel in ublock; ifm channel in ublock] *)
+(* the documented nesting as a sort key of a source position, outermost loop first:
+   [start of the ofm block; start of the ifm block; start of the sub-kernel in y; in x;
+    ifm micro-block inside the ifm block (part-kernel-first only, else 0); ofm micro-block inside the
+    ofm block; element number inside the sub-kernel (row-major over the clipped sub-kernel width);
+    ifm micro-block inside the ifm block (depth-first only, else 0); ofm channel inside the
+    micro-block; ifm channel inside the micro-block] *)
 Definition order_key (c : cfg) (i : idx) : list Z :=
   let '(oz, wy, wx, iz) := i in
   let ibd := ifm_block_depth c in
   let sx := decomp_w c * (wx / decomp_w c) in
   let sub_w := Z.min (kernel_w c - sx) (decomp_w c) in
-  let iub := ifm_ublock c * ((iz mod ibd) / ifm_ublock c) in
-  [ oz / ofm_block c; iz / ibd; wy / decomp_h c; wx / decomp_w c;
+  let ro := oz mod ofm_block c in
+  let ri := iz mod ibd in
+  let iub := ifm_ublock c * (ri / ifm_ublock c) in
+  [ ofm_block c * (oz / ofm_block c); ibd * (iz / ibd);
+    decomp_h c * (wy / decomp_h c); sx;
     (if is_pk c then iub else 0);
-    (oz mod ofm_block c) / ofm_ublock c;
+    ofm_ublock c * (ro / ofm_ublock c);
     (wy mod decomp_h c) * sub_w + (wx mod decomp_w c);
     (if is_pk c then 0 else iub);
-    oz mod ofm_ublock c; iz mod ifm_ublock c ].
+    ro mod ofm_ublock c; ri mod ifm_ublock c ].
 
 Fixpoint lex_lt (a b : list Z) : Prop :=
   match a, b with
   | x :: a', y :: b' => x < y \/ (x = y /\ lex_lt a' b')
   | _, _ => False
+  end.
+
+Fixpoint lex_ltb (a b : list Z) : bool :=
+  match a, b with
+  | x :: a', y :: b' => (x <? y) || ((x =? y) && lex_ltb a' b')
+  | _, _ => false
   end.
 
 Fixpoint somes {A : Type} (l : list (option A)) : list A :=
